@@ -30,6 +30,7 @@ def main():
     import fibertree  # noqa: F401  (fail early and loudly if /repo does not import)
     assert os.path.realpath(fibertree.__file__).startswith(os.path.realpath(REPO)), fibertree.__file__
     cases = json.load(open(fin))
+    import ftutil as U
     signal.signal(signal.SIGALRM, _alarm)
     out = []
     notes = []
@@ -44,8 +45,9 @@ def main():
             continue
         try:
             signal.alarm(per_case)
+            U.set_mode(mod, case)
             with contextlib.redirect_stdout(sink):
-                obs = mod.run_impl(case)
+                obs = U.norm_obs(mod.run_impl(case))
             signal.alarm(0)
         except _Timeout:
             obs = [-1, ERR_TIMEOUT]
